@@ -4,6 +4,7 @@
 from __future__ import annotations
 
 import difflib
+import os
 import re
 import typing as T
 from configparser import ConfigParser, MissingSectionHeaderError, ParsingError
@@ -1108,11 +1109,14 @@ def run(options: argparse.Namespace) -> int:
             src_file = src_file / build_filename
 
         try:
+            raw_code: T.Optional[str] = None
             if from_stdin:
                 src_file = options.source_file_path or Path('STDIN')  # used for error messages and introspection
                 code = sys.stdin.read()
             else:
-                code = src_file.read_text(encoding='utf-8')
+                with src_file.open(encoding='utf-8', newline='') as sf:
+                    raw_code = sf.read()
+                code = raw_code.replace('\r\n', '\n').replace('\r', '\n')  # universal newlines
         except IOError as e:
             raise MesonException(f'Unable to read from {src_file}') from e
 
@@ -1127,7 +1131,12 @@ def run(options: argparse.Namespace) -> int:
             except IOError as e:
                 raise MesonException(f'Unable to write to {src_file}') from e
         elif options.check_only or options.check_diff:
-            if code != formatted:
+            modified = code != formatted
+            if not modified and raw_code is not None:
+                # --inplace would also rewrite the line endings
+                newline = formatter.current_config.newline or os.linesep
+                modified = raw_code != formatted.replace('\n', newline)
+            if modified:
                 err = 1
                 if options.check_diff:
                     diff = difflib.unified_diff(code.splitlines(), formatted.splitlines(),
